@@ -1138,9 +1138,6 @@ func mErge(_hm0, _hm1 MalType) (MalType, error) {
 			return nil, errors.New("expected hash map")
 		}
 	}
-	if hm0.Val == nil && hm1.Val == nil {
-		return nil, nil
-	}
 	merged := HashMap{
 		Val: make(map[string]MalType),
 	}
